@@ -163,11 +163,18 @@ fn pred_cols(t: &Tbl) -> Cols {
 pub fn gen_settings(rng: &mut Rng, tys: &[Ty], on: &[usize], indexed_possible: bool, use_index: bool) -> MSettings {
     let ncols = tys.len();
     // schema of the source
-    let scols: Vec<usize> = if rng.chance(3, 5) {
+    let mut scols: Vec<usize> = if rng.chance(3, 5) {
         (0..ncols).collect()
     } else {
         (0..ncols).filter(|c| on.contains(c) || rng.bool()).collect()
     };
+    if rng.chance(1, 8) {
+        // same columns in another order (a full set of columns in another order takes the sub-schema path)
+        for i in (1..scols.len()).rev() {
+            let j = rng.below(i as u64 + 1) as usize;
+            scols.swap(i, j);
+        }
+    }
     let mcols: Cols = scols.iter().map(|c| (*c, tys[*c])).chain(scols.iter().map(|c| (ncols + *c, tys[*c]))).collect();
     let tcols: Cols = (0..ncols).map(|c| (c, tys[c])).collect();
     loop {
@@ -253,12 +260,18 @@ pub async fn one_table(sink: &mut Sink, ss: &mut Streams, rng: &mut Rng, ti: usi
             }
         });
     }
-    let on: Vec<usize> = if two_keys { vec![0, 1] } else { vec![0] };
+    let on: Vec<usize> = if two_keys {
+        vec![0, 1]
+    } else if tys[1] != Ty::Bool && rng.chance(1, 6) {
+        vec![1]
+    } else {
+        vec![0]
+    };
     let stable = rng.bool();
     let n0 = rng.range(5, 16) as usize;
     let nfrag = rng.range(1, 3) as usize;
     let unique = rng.chance(4, 5);
-    let rows0 = gen_rows(rng, &tys, on.len(), n0, unique);
+    let rows0 = gen_rows(rng, &tys, if on == vec![1] { 2 } else { on.len() }, n0, unique);
     let mut t = Tbl::create(tys.clone(), &rows0, nfrag, stable).await;
     sink.count(if stable { "e2e-table-stable-row-ids" } else { "e2e-table-address-row-ids" });
     let mut hist: Vec<String> = vec![format!("create {} rows in {} fragment(s), types {:?}, stable_row_ids={}", rows0.len(), nfrag, tys, stable)];
@@ -276,6 +289,7 @@ pub async fn one_table(sink: &mut Sink, ss: &mut Streams, rng: &mut Rng, ti: usi
         let cf = gen_b(rng, 1, &pc);
         let cf_sql = sql_b(&cf, &names_plain);
         let kind = rng.below(20);
+        let kind = if t.index_on0 && kind >= 18 { 17 } else { kind };
         if kind < 4 {
             // ---------------------------------------------------------------- delete
             let p = gen_b(rng, 2, &pc);
@@ -309,11 +323,11 @@ pub async fn one_table(sink: &mut Sink, ss: &mut Streams, rng: &mut Rng, ti: usi
             let use_index = !t.index_on0 || rng.chance(3, 4);
             let st = gen_settings(rng, &t.tys, &on, t.index_on0, use_index);
             let src = gen_source(rng, &t.tys, &st, &live);
-            let nb = rng.range(1, 2) as usize;
+            let nb = rng.range(1, 3) as usize;
             if merge_case(sink, &mut ss.mrg, &mut t, ti, &mut hist, &before, &st, &src, nb, use_index, &cf, "merge").await.is_none() {
                 return;
             }
-        } else if kind < 19 {
+        } else if kind < 18 || t.index_on0 {
             let na = rng.range(1, 5) as usize;
             let rows = gen_rows(rng, &t.tys, on.len(), na, false);
             hist.push(format!("append {}", fmt_rows(&rows)));
@@ -408,6 +422,22 @@ pub async fn merge_case(
     };
     stream.push(coq_in, coq_out, case.clone());
     sink.count(&format!("{}:{}", tag, st.label()));
+    sink.count(match &outcome {
+        Ok(_) => "merge-outcome-ok",
+        Err(1) => "merge-outcome-duplicate-match-error",
+        Err(2) => "merge-outcome-fail-error",
+        Err(3) => "merge-outcome-rejected",
+        _ => "merge-outcome-panic",
+    });
+    if st.on.len() > 1 {
+        sink.count("merge-two-key-columns");
+    }
+    if !st.full() && st.scols.len() == st.ncols {
+        sink.count("merge-permuted-full-schema");
+    }
+    if src.iter().any(|s| st.on.iter().any(|k| st.src_get(s, *k).is_none())) {
+        sink.count("merge-source-has-null-key");
+    }
     sink.count(if st.fast_path() { "merge-path-fast" } else if st.indexed && matches!(st.ns, Ns::Keep) { "merge-path-indexed-join" } else if st.full() { "merge-path-full-join" } else { "merge-path-partial-schema" });
     sink.nontrivial(&format!("m{}{}{}", coq_layout(before), fmt_rows(src), st.coq()));
     // oracle: SQL MERGE
